@@ -201,16 +201,24 @@ func (schema *Schema) HasObject(name string) bool {
 }
 
 func (schema *Schema) Resolve(typeDef Type) (Type, bool) {
-	if !typeDef.IsRef() {
-		return typeDef, true
+	seen := map[string]struct{}{}
+
+	for typeDef.IsRef() {
+		// references can be cyclic: `A: B`, `B: A`
+		if _, cyclic := seen[typeDef.AsRef().ReferredType]; cyclic {
+			return Type{}, false
+		}
+		seen[typeDef.AsRef().ReferredType] = struct{}{}
+
+		referredObj, found := schema.LocateObject(typeDef.AsRef().ReferredType)
+		if !found {
+			return Type{}, false
+		}
+
+		typeDef = referredObj.Type
 	}
 
-	referredObj, found := schema.LocateObject(typeDef.AsRef().ReferredType)
-	if !found {
-		return Type{}, false
-	}
-
-	return schema.Resolve(referredObj.Type)
+	return typeDef, true
 }
 
 type SchemaMeta struct {
